@@ -103,9 +103,10 @@ def is_pure_event(e):
         return False
     d = c.get("def") or ""
     tr = c.get("trait") or ""
-    if not e["args"] and nm in ("new", "default") and (d.startswith("heapless::") or (c.get("self_ty") or "").startswith("heapless::") or
-                                                       ((c.get("args") or [""])[0] or "").startswith("heapless::")):
-        return True          # an empty fixed-capacity container: a value
+    _val = ("heapless::", "cobs::")
+    if not e["args"] and nm in ("new", "default") and (d.startswith(_val) or (c.get("self_ty") or "").startswith(_val) or
+                                                       ((c.get("args") or [""])[0] or "").startswith(_val)):
+        return True          # an empty fixed-capacity container / a fresh encoder state: a value, not an effect
     if nm in PURE_NAMES and (d.startswith(PURE_PREFIX) or tr.startswith(PURE_PREFIX)):
         # trait methods of core traits on *local or generic* types (Deref on a user type, Iterator::next on an unknown iterator) are not
         # known to be pure; core traits on core types are
